@@ -77,8 +77,8 @@ async def retrieve_relevant_chunks(
                 context_updates["relevant_chunks"] += "\n"
         else:
             context_updates["relevant_chunks"] = (
-                context.get("relevant_chunks", "") + "\n"
-            )
+                context.get("relevant_chunks") or ""
+            ) + "\n"
         context_updates["relevant_chunks_sep"] = context.get("relevant_chunks_sep", [])
         context_updates["retrieved_for"] = None
 
